@@ -70,13 +70,13 @@ theorem guard_false_transfer (cfg : Cfg ℚ) (target : ℚ) (s s' : Sys ℚ) (hg
 its loop guard is false -/
 theorem first_call_state (cfg : Cfg ℚ) (s : Sys ℚ) (target : ℚ) (orc : Oracle ℚ) (fuel : Nat)
     (h : (integrate cfg s target orc fuel).guardExit = true) :
-    absC (target - (integrate cfg s target orc fuel).sys.tcur) < cfg.eps ∨
+    absC (target - (integrate cfg s target orc fuel).sys.tcur) < cfg.tolEps ∨
       DV.Loop.guard cfg target (integrate cfg s target orc fuel).sys = false := by
   unfold integrate at h ⊢
   by_cases hc : s.crashed = true
   · simp [hc] at h
   · simp only [hc, Bool.false_eq_true, if_false] at h ⊢
-    by_cases hat : absC (target - s.tcur) < cfg.eps
+    by_cases hat : absC (target - s.tcur) < cfg.tolEps
     · simp only [hat, if_true]
       exact Or.inl trivial
     · simp only [hat, if_false] at h ⊢
@@ -89,14 +89,14 @@ theorem first_call_state (cfg : Cfg ℚ) (s : Sys ℚ) (target : ℚ) (orc : Ora
 
 /-- a call on a system that is at the target, or whose loop guard is false, is idle -/
 theorem idle_call (cfg : Cfg ℚ) (target : ℚ) (orc' : Oracle ℚ) (fuel' : Nat) (s1 : Sys ℚ)
-    (hs1 : absC (target - s1.tcur) < cfg.eps ∨ DV.Loop.guard cfg target s1 = false) :
+    (hs1 : absC (target - s1.tcur) < cfg.tolEps ∨ DV.Loop.guard cfg target s1 = false) :
     (integrate cfg s1 target orc' fuel').sys.ts = s1.ts ∧ (integrate cfg s1 target orc' fuel').reqs = [] ∧
       (integrate cfg s1 target orc' fuel').iters = 0 := by
   unfold integrate
   by_cases hc : s1.crashed = true
   · simp [hc]
   · simp only [hc, Bool.false_eq_true, if_false]
-    by_cases hat : absC (target - s1.tcur) < cfg.eps
+    by_cases hat : absC (target - s1.tcur) < cfg.tolEps
     · simp [hat]
     · simp only [hat, if_false]
       have hg : DV.Loop.guard cfg target s1 = false := by
